@@ -324,6 +324,27 @@ def check(ctx):
                     or (x.op == "cmp" and x.args[0] == "Eq")
                     for c in row_c for x in c.walk())
         ok = bool(rot_c) and bool(row_c) and exact
+        if not rot_c and any(x is tm.sub(pa, R33) for x in ret.walk()):
+            # the rotation test is re-implemented on the block (Gram matrix
+            # ...) instead of calling is_so3. An orthogonality test alone
+            # holds for a reflection -R as well: without a determinant (or a
+            # handedness test by a cross product) nothing can tell them apart
+            handed = any(is_call_to(x, "numpy.linalg.det", "numpy.cross",
+                                    "numpy.linalg.slogdet")
+                         for x in ret.walk())
+            if handed:
+                ctx.undecidable("C09.3", prog.func(L + name),
+                                f"{name}: rotation test re-implemented "
+                                f"without is_so3 (tolerances / handedness "
+                                f"test not modelled)")
+            else:
+                ctx.ob("C09.3", prog.func(L + name), False,
+                       f"{name} tests the block without is_so3 and without "
+                       f"any determinant / handedness test: R^T R = s^2 I "
+                       f"holds for a (scaled) reflection as well, which is "
+                       f"then accepted as a group element",
+                       key=f"C09.3:{name}")
+            continue
         ctx.ob("C09.3", prog.func(L + name), ok,
                f"{name} = rotation-block test AND exact bottom row "
                f"(0,0,0,1)" if ok else
@@ -352,7 +373,8 @@ def check(ctx):
                     continue
                 a_, b_ = x.args[1][0], x.args[1][1]
                 for q, z in ((a_, b_), (b_, a_)):
-                    zero = tm.is_const(z) and tm.const_val(z) in (0, 0.0)
+                    zero = (tm.is_const(z) and tm.const_val(z) in (0, 0.0)) \
+                        or any(y.op == "param" for y in z.walk())
                     scaled = any(is_call_to(y, "numpy.linalg.det",
                                             "numpy.linalg.norm")
                                  for y in q.walk()) and any(
@@ -367,9 +389,11 @@ def check(ctx):
                    f"{name}: no absolute near-zero test on a quantity that "
                    f"scales with the element" if not hits else
                    f"{name}: {fmt(hits[0])[:90]} compares a determinant / "
-                   f"norm of the scaled block with 0 under numpy's absolute "
-                   f"tolerance (1e-8): a genuine Sim(3) element with scale "
-                   f"1e-3 has det 1e-9 and is treated as singular",
+                   f"norm of the scaled block with 0 (or with another "
+                   f"quantity of the element's scale) under an absolute "
+                   f"tolerance: at scale 1e-3 the determinant is 1e-9, far "
+                   f"below the tolerance — genuine elements are treated as "
+                   f"singular, resp. reflections / other scales pass",
                    key=f"C09.3:{name}:small-scale", nontrivial=bool(hits))
     # is_sim3: reflections (negative block determinant) must not pass
     sc = Interp(prog).run(prog.func(L + "sim3_scale")).ret
@@ -411,10 +435,19 @@ def check(ctx):
     ok = bool(raises) and bool(conv) and all(
         tm.fold(e.live, lambda t: False if t is member else None) is False
         for e in conv)
-    ctx.ob("C09.3", prog.func(L + "so3_log"), ok,
-           "so3_log rejects non-members of SO(3) before converting" if ok
-           else "so3_log converts without a membership test",
-           key="C09.3:so3_log:guard")
+    if not conv:
+        # the logarithm is computed by other means (closed form ...): whether
+        # it is the inverse of so3_exp near angle 0 and pi is conditioning,
+        # not shape
+        ctx.undecidable("C09.3", prog.func(L + "so3_log"),
+                        "so3_log: the conversion through scipy's Rotation "
+                        "(as_rotvec) is replaced by another computation — "
+                        "its accuracy near the angles 0 and pi is arithmetic")
+    else:
+        ctx.ob("C09.3", prog.func(L + "so3_log"), ok,
+               "so3_log rejects non-members of SO(3) before converting"
+               if ok else "so3_log converts without a membership test",
+               key="C09.3:so3_log:guard")
     # --------------------------------------------------------------- C09.4
     f = prog.func(L + "so3_log_angle")
     # the unit is chosen by the `degrees` flag, or by a parameter that takes
